@@ -5,6 +5,36 @@ ROOT = os.path.dirname(os.path.dirname(os.path.abspath(__file__)))
 
 # id -> (level, technique, level text, level note, design ref)
 CHECKS = {
+ "C01": ("exploration", "reference-model monitor: generated parsers (real peg + Go compiler) vs an independent PEG interpreter on generated grammars x inputs x entry rules",
+         "Verdict and consumed prefix of the real generated parser are compared with an executable PEG specification on thousands of (well-formed grammar, entry rule, input) executions covering every operator of the .peg language both succeeding and failing; memo on and off; grammar text printed with random spelling variants.",
+         "Held on the executions produced. Trusted: the reference interpreter (internal/ref), gram's well-formedness analysis, the Go compiler. Inputs <= 64 runes.", "5/C01"),
+ "C02": ("exploration", "differential + reference-model monitor across the four -inline/-switch combinations",
+         "The four option combinations are generated for each choice-heavy grammar and run on first-set boundary inputs; verdict, prefix and the full token sequence must equal both the option-free parser and the reference interpreter; evidence counts grammars whose -switch output really contains a switch and rules really inlined.",
+         "Held on the executions produced; -inline parsers entered through the first rule only; furthest-failure token not claimed invariant (DESIGN 6.2).", "5/C02"),
+ "C03": ("exploration", "reference-model monitor + in-package probe reading token.begin/end; structural invariants on the token stream",
+         "After every successful parse the probe dumps Tokens(); it must equal the reference's post-order record of the derivation and satisfy reference-free invariants (bounds, laminar post-order, last token = entry rule over the prefix); workloads force tokens to be written and abandoned (shared prefixes, failing last iterations, lookahead), Size 1/4 forces both paths of tokens.Add.",
+         "Held on the executions produced; tokens after a failed parse are unspecified and not observed.", "5/C03"),
+ "C04": ("exploration", "reference-model monitor on an action trace recorded by probe actions",
+         "Every action is a probe recording (id, text, begin, end); Execute()'s trace must equal the reference's derivation-order trace; workloads put actions and captures in branches that fail, abandoned iterations and lookahead.",
+         "Held on the executions produced (default, -inline, memo off).", "5/C04"),
+ "C05": ("exploration", "reference-model monitor: AST() walked through up/next and all four printers captured, vs the reference derivation tree",
+         "Tree shape and the exact printed text (Sprint/Write/Print/Pretty via a stdout pipe) are compared with the reference tree for unit chains, zero-width siblings, deep nesting and multi-byte input.",
+         "Held on the executions produced; nesting depth bounded (60 levels x chain length).", "5/C05"),
+ "C06": ("exploration", "differential monitor memo vs DisableMemoize + in-parser rule-entry observer (grammar-embedded predicate) that makes memo hits observable",
+         "Same compiled parser, memo on/off: verdict, tokens, error token equal and equal to the reference; the observer log proves hits happened: with memo each (rule, offset) body is entered exactly once, in first-visit order.",
+         "Held on the executions produced; observer predicates are always true.", "5/C06"),
+ "C07": ("exploration", "reference-model monitor on inline event traces of -noast parsers (probe actions, position probes via state changes)",
+         "Verdict/prefix of the four -noast combinations vs the reference and the default parser; inline event list equals the reference's time-ordered list for -noast and -noast -inline; trace-internal + containment oracle for the -switch combinations.",
+         "Held on the executions produced; weaker (but sound) oracle for the inline trace under -switch, see DESIGN 5/C07.", "5/C07"),
+ "C11": ("exploration", "reference-model monitor on rejected inputs: probe reads parseError.maxToken and Error()",
+         "For every rejected input the error's dynamic type, its token (vs the reference's furthest token) and the exact message with independently recomputed line/column are checked, Pretty on/off, memo on/off, -inline exactly and -switch with the documented weakening; panics while formatting are caught.",
+         "Held on the executions produced; line/column convention stated in the evidence assumptions.", "5/C11"),
+ "C12": ("exploration", "history monitor: one long-lived instance vs a fresh instance per input, across U and Size instantiations",
+         "Histories of 6-40 inputs (fail->success, long->short, repeats, empty) on one instance under 4 integer types x 3 sizes x memo on/off; every step must equal the fresh-instance observation (verdict, tokens, tree, print, trace, error token, message).",
+         "Held on the histories produced; inputs fit uint16.", "5/C12"),
+ "C14": ("exploration", "Go race detector + differential monitor (concurrent result == result alone) over stress batches",
+         "Runner built with -race; 2/8/32 goroutines run fresh and long-lived instances of the same and of different parser types at once; every result must equal the sequential one and the detector must stay silent; evidence reports how many calls really overlapped.",
+         "Held on the schedules the Go scheduler produced here; the monitor adds no synchronisation between the goroutines.", "5/C14"),
  "C16": ("exploration", "reference-model monitor (bit-vector set) over bounded-exhaustive + random operation sequences on the real package",
          "Every observable of the real set package (Has on every point, Len, String, Copy, Union, Intersects, Complement, Equal, operand preservation, panics, non-termination) is compared with a bit-vector model after every operation; the sub-space universe 0..6 / <=3 insertions / all pairs of <=2-insertion sets is enumerated completely, the rest is random (incl. the 0x10FFFF/0x110000 neighbourhood peg itself uses and inverted ranges).",
          "Held on the executions produced; trusted: the 40-line bit-vector model in drivers/setdrv. Elements are non-negative runes.", "5/C16"),
